@@ -2,6 +2,7 @@ package vc
 
 import (
 	"fmt"
+	"math"
 	"math/big"
 	"os"
 	"os/exec"
@@ -106,6 +107,22 @@ func parseIR(text string) []*irFunc {
 			}
 			ins.ty = f[i]
 			ins.args = f[i+1:]
+		case "fadd", "fsub", "fmul", "fdiv", "frem", "fneg":
+			i := 1
+			for irFPWidth(f[i]) == 0 && i < len(f)-1 {
+				ins.pred += f[i] + " " // fast-math flags
+				i++
+			}
+			ins.ty = f[i]
+			ins.args = f[i+1:]
+		case "fcmp":
+			i := 1
+			for i < len(f)-3 && irFPWidth(f[i+1]) == 0 {
+				i++ // fast-math flags before the predicate
+			}
+			ins.pred = f[i]
+			ins.ty = f[i+1]
+			ins.args = f[i+2:]
 		case "icmp":
 			ins.pred = f[1]
 			ins.ty = f[2]
@@ -114,7 +131,7 @@ func parseIR(text string) []*irFunc {
 			// select i1 %c, iN a, iN b
 			ins.ty = f[3]
 			ins.args = []string{f[2], f[4], f[6]}
-		case "trunc", "zext", "sext":
+		case "trunc", "zext", "sext", "sitofp", "uitofp", "fptosi", "fptoui", "fpext", "fptrunc":
 			// trunc iN %x to iM
 			ins.ty = f[1]
 			ins.args = []string{f[2]}
@@ -165,9 +182,97 @@ func irWidth(ty string) int {
 }
 
 type irVal struct {
-	t      string // SMT term (bit-vector of width w; i1 is (_ BitVec 1))
+	t      string // SMT term (bit-vector of width w; i1 is (_ BitVec 1); FloatingPoint when fp)
 	w      int
 	poison string // SMT Bool term
+	fp     bool
+}
+
+// irFPWidth: 32 for float, 64 for double, else 0.
+func irFPWidth(ty string) int {
+	switch ty {
+	case "float":
+		return 32
+	case "double":
+		return 64
+	}
+	return 0
+}
+
+func fpSortS(w int) string {
+	if w == 32 {
+		return "(_ FloatingPoint 8 24)"
+	}
+	return "(_ FloatingPoint 11 53)"
+}
+
+func fpToFP(w int) string {
+	if w == 32 {
+		return "(_ to_fp 8 24)"
+	}
+	return "(_ to_fp 11 53)"
+}
+
+// fpConstBits renders an IEEE bit pattern as an FP term of width w.
+func fpConstBits(bits uint64, w int) string {
+	if w == 32 {
+		return fmt.Sprintf("((_ to_fp 8 24) (_ bv%d 32))", uint32(bits))
+	}
+	return fmt.Sprintf("((_ to_fp 11 53) (_ bv%d 64))", bits)
+}
+
+// fpPow2 is 2^k as an FP term of width w (exactly representable for |k| <= 64).
+func fpPow2(k int, w int, neg bool) string {
+	f := math.Ldexp(1, k)
+	if neg {
+		f = -f
+	}
+	if w == 32 {
+		return fpConstBits(uint64(math.Float32bits(float32(f))), 32)
+	}
+	return fpConstBits(math.Float64bits(f), 64)
+}
+
+// fpIntInRange: truncating x (FP of width fw) toward zero gives an integer representable in iw bits.
+func fpIntInRange(x string, fw, iw int, signed bool) string {
+	r := "(fp.roundToIntegral RTZ " + x + ")"
+	if signed {
+		return "(and (not (fp.isNaN " + x + ")) (not (fp.isInfinite " + x + ")) (fp.geq " + r + " " + fpPow2(iw-1, fw, true) + ") (fp.lt " + r + " " + fpPow2(iw-1, fw, false) + "))"
+	}
+	return "(and (not (fp.isNaN " + x + ")) (not (fp.isInfinite " + x + ")) (fp.geq " + r + " " + fpConstBits(0, fw) + ") (fp.lt " + r + " " + fpPow2(iw, fw, false) + "))"
+}
+
+func (e *irEval) fpOperand(tok string, w int) irVal {
+	if strings.HasPrefix(tok, "%") {
+		v, ok := e.vals[tok]
+		if !ok {
+			e.err = "unknown value " + tok
+			return irVal{t: fpConstBits(0, w), w: w, poison: "false", fp: true}
+		}
+		return v
+	}
+	if tok == "poison" || tok == "undef" {
+		return irVal{t: fpConstBits(0, w), w: w, poison: "true", fp: true}
+	}
+	var f float64
+	if strings.HasPrefix(tok, "0x") {
+		// LLVM prints float and double constants as the hexadecimal bits of the DOUBLE value
+		b, err := strconv.ParseUint(tok[2:], 16, 64)
+		if err != nil {
+			e.err = "unsupported float constant " + tok
+		}
+		f = math.Float64frombits(b)
+	} else {
+		var err error
+		f, err = strconv.ParseFloat(tok, 64)
+		if err != nil {
+			e.err = "unsupported float constant " + tok
+		}
+	}
+	if w == 32 {
+		return irVal{t: fpConstBits(uint64(math.Float32bits(float32(f))), 32), w: 32, poison: "false", fp: true}
+	}
+	return irVal{t: fpConstBits(math.Float64bits(f), 64), w: 64, poison: "false", fp: true}
 }
 
 type irCall struct {
@@ -299,6 +404,70 @@ func (e *irEval) eval(fn *irFunc) (ret irVal) {
 				e.ub = append(e.ub, andS(e.alive, orS(fmt.Sprintf("(= %s %s)", b.t, bvLit(big.NewInt(0), w)), b.poison)))
 			}
 			e.vals[ins.res] = irVal{t: t, w: w, poison: p}
+		case "fadd", "fsub", "fmul", "fdiv", "fneg":
+			fw := irFPWidth(ins.ty)
+			if fw == 0 || strings.TrimSpace(ins.pred) != "" {
+				e.err = "unsupported floating-point instruction: " + ins.raw
+				continue
+			}
+			a := e.fpOperand(ins.args[0], fw)
+			if ins.op == "fneg" {
+				e.vals[ins.res] = irVal{t: "(fp.neg " + a.t + ")", w: fw, poison: a.poison, fp: true}
+				continue
+			}
+			b := e.fpOperand(ins.args[1], fw)
+			// LangRef: IEEE-754 semantics in the default floating-point environment (round to nearest even)
+			e.vals[ins.res] = irVal{t: "(fp." + ins.op[1:] + " RNE " + a.t + " " + b.t + ")", w: fw, poison: orS(a.poison, b.poison), fp: true}
+		case "fcmp":
+			fw := irFPWidth(ins.ty)
+			a, b := e.fpOperand(ins.args[0], fw), e.fpOperand(ins.args[1], fw)
+			uno := "(or (fp.isNaN " + a.t + ") (fp.isNaN " + b.t + "))"
+			rel := map[string]string{"eq": "fp.eq", "gt": "fp.gt", "ge": "fp.geq", "lt": "fp.lt", "le": "fp.leq"}
+			var c string
+			switch {
+			case ins.pred == "true" || ins.pred == "false":
+				c = ins.pred
+			case ins.pred == "ord":
+				c = "(not " + uno + ")"
+			case ins.pred == "uno":
+				c = uno
+			case ins.pred == "one":
+				c = "(and (not " + uno + ") (not (fp.eq " + a.t + " " + b.t + ")))"
+			case ins.pred == "une":
+				c = "(or " + uno + " (not (fp.eq " + a.t + " " + b.t + ")))"
+			case len(ins.pred) == 3 && ins.pred[0] == 'o' && rel[ins.pred[1:]] != "":
+				c = "(" + rel[ins.pred[1:]] + " " + a.t + " " + b.t + ")" // false on NaN by IEEE
+			case len(ins.pred) == 3 && ins.pred[0] == 'u' && rel[ins.pred[1:]] != "":
+				c = "(or " + uno + " (" + rel[ins.pred[1:]] + " " + a.t + " " + b.t + "))"
+			default:
+				e.err = "fcmp predicate " + ins.pred
+				c = "false"
+			}
+			e.vals[ins.res] = irVal{t: "(ite " + c + " #b1 #b0)", w: 1, poison: orS(a.poison, b.poison)}
+		case "sitofp", "uitofp":
+			a := e.operand(ins.args[0], w)
+			fw := irFPWidth(ins.toTy)
+			op := fpToFP(fw)
+			if ins.op == "uitofp" {
+				op = strings.Replace(op, "to_fp", "to_fp_unsigned", 1)
+			}
+			e.vals[ins.res] = irVal{t: "(" + op + " RNE " + a.t + ")", w: fw, poison: a.poison, fp: true}
+		case "fptosi", "fptoui":
+			fw := irFPWidth(ins.ty)
+			a := e.fpOperand(ins.args[0], fw)
+			tw := irWidth(ins.toTy)
+			op := "fp.to_sbv"
+			if ins.op == "fptoui" {
+				op = "fp.to_ubv"
+			}
+			// LangRef: rounds toward zero; if the value cannot fit in the result type, the result is poison
+			e.vals[ins.res] = irVal{t: fmt.Sprintf("((_ %s %d) RTZ %s)", op, tw, a.t), w: tw,
+				poison: orS(a.poison, "(not "+fpIntInRange(a.t, fw, tw, ins.op == "fptosi")+")")}
+		case "fpext", "fptrunc":
+			fw := irFPWidth(ins.ty)
+			a := e.fpOperand(ins.args[0], fw)
+			tw := irFPWidth(ins.toTy)
+			e.vals[ins.res] = irVal{t: "(" + fpToFP(tw) + " RNE " + a.t + ")", w: tw, poison: a.poison, fp: true}
 		case "icmp":
 			a, b := e.operand(ins.args[0], w), e.operand(ins.args[1], w)
 			var c string
@@ -316,11 +485,17 @@ func (e *irEval) eval(fn *irFunc) (ret irVal) {
 			e.vals[ins.res] = irVal{t: "(ite " + c + " #b1 #b0)", w: 1, poison: orS(a.poison, b.poison)}
 		case "select":
 			c := e.operand(ins.args[0], 1)
-			a, b := e.operand(ins.args[1], w), e.operand(ins.args[2], w)
+			var a, b irVal
+			isFP := false
+			if fw := irFPWidth(ins.ty); fw > 0 {
+				a, b, w, isFP = e.fpOperand(ins.args[1], fw), e.fpOperand(ins.args[2], fw), fw, true
+			} else {
+				a, b = e.operand(ins.args[1], w), e.operand(ins.args[2], w)
+			}
 			cond := "(= " + c.t + " #b1)"
 			// LangRef: poison if the condition is poison, otherwise the poison-ness of the selected operand
 			p := orS(c.poison, "(ite "+cond+" "+a.poison+" "+b.poison+")")
-			e.vals[ins.res] = irVal{t: "(ite " + cond + " " + a.t + " " + b.t + ")", w: w, poison: p}
+			e.vals[ins.res] = irVal{t: "(ite " + cond + " " + a.t + " " + b.t + ")", w: w, poison: p, fp: isFP}
 		case "trunc", "zext", "sext":
 			a := e.operand(ins.args[0], w)
 			tw := irWidth(ins.toTy)
@@ -380,6 +555,9 @@ func (e *irEval) eval(fn *irFunc) (ret irVal) {
 		case "ret":
 			if len(ins.args) == 1 && w > 0 {
 				return e.operand(ins.args[0], w)
+			}
+			if fw := irFPWidth(ins.ty); len(ins.args) == 1 && fw > 0 {
+				return e.fpOperand(ins.args[0], fw)
 			}
 		default:
 			e.err = "unsupported instruction: " + ins.raw
@@ -558,6 +736,12 @@ func buildC02Case(fn *irFunc, useUF bool) *c02Case {
 	var decl strings.Builder
 	for i, p := range fn.params {
 		w := irWidth(p)
+		if fw := irFPWidth(p); fw > 0 {
+			name := fmt.Sprintf("a%d", i)
+			fmt.Fprintf(&decl, "(declare-const %s %s)\n", name, fpSortS(fw))
+			ev.vals[fmt.Sprintf("%%%d", i)] = irVal{t: name, w: fw, poison: "false", fp: true}
+			continue
+		}
 		if w == 0 {
 			continue // pointer / aggregate parameter: opaque
 		}
@@ -571,14 +755,40 @@ func buildC02Case(fn *irFunc, useUF bool) *c02Case {
 	}
 	var spec, specPanic, panicKind string
 	specW := 0
+	specFP := false
+	specPre := "true" // the Go spec defines the result only under this condition
 	ok := false
+	goFloatW := func(name string) int {
+		switch name {
+		case "float32":
+			return 32
+		case "float64":
+			return 64
+		}
+		return 0
+	}
 	switch parts[0] {
 	case "binop":
 		tx, ok1 := goIntTypeOf(parts[2])
 		ty, ok2 := goIntTypeOf(parts[3])
 		c.fnName = "ssa.Builder.BinOp"
 		c.oblig = fmt.Sprintf("ssa.Builder.BinOp/ensures-den[op=%s,x=%s,y=%s]", parts[1], parts[2], parts[3])
-		if parts[2] == "bool" {
+		if fw := goFloatW(parts[2]); fw > 0 && parts[2] == parts[3] {
+			// IEEE-754 arithmetic, round to nearest even; comparisons are false on NaN except !=
+			specPanic = "false"
+			switch parts[1] {
+			case "ADD", "SUB", "MUL", "QUO":
+				o := map[string]string{"ADD": "add", "SUB": "sub", "MUL": "mul", "QUO": "div"}[parts[1]]
+				spec, specW, specFP, ok = "(fp."+o+" RNE a0 a1)", fw, true, true
+			case "EQL":
+				spec, specW, ok = "(ite (fp.eq a0 a1) #b1 #b0)", 1, true
+			case "NEQ":
+				spec, specW, ok = "(ite (fp.eq a0 a1) #b0 #b1)", 1, true
+			case "LSS", "LEQ", "GTR", "GEQ":
+				o := map[string]string{"LSS": "fp.lt", "LEQ": "fp.leq", "GTR": "fp.gt", "GEQ": "fp.geq"}[parts[1]]
+				spec, specW, ok = "(ite ("+o+" a0 a1) #b1 #b0)", 1, true
+			}
+		} else if parts[2] == "bool" {
 			// bool == / != : i1 operands
 			if parts[1] == "EQL" {
 				spec, specW, specPanic, ok = "(ite (= a0 a1) #b1 #b0)", 1, "false", true
@@ -609,6 +819,8 @@ func buildC02Case(fn *irFunc, useUF bool) *c02Case {
 		c.oblig = fmt.Sprintf("ssa.Builder.UnOp/ensures-den[op=%s,x=%s]", parts[1], parts[2])
 		tx, ok1 := goIntTypeOf(parts[2])
 		switch {
+		case parts[1] == "SUB" && goFloatW(parts[2]) > 0:
+			spec, specW, specFP, specPanic, ok = "(fp.neg a0)", goFloatW(parts[2]), true, "false", true
 		case parts[1] == "NOT":
 			spec, specW, specPanic, ok = "(bvnot a0)", 1, "false", true
 		case ok1 && parts[1] == "SUB":
@@ -621,8 +833,31 @@ func buildC02Case(fn *irFunc, useUF bool) *c02Case {
 		c.oblig = fmt.Sprintf("ssa.Builder.Convert/ensures-den[src=%s,dst=%s]", parts[1], parts[2])
 		ts, ok1 := goIntTypeOf(parts[1])
 		td, ok2 := goIntTypeOf(parts[2])
-		if ok1 && ok2 {
+		fs, fd := goFloatW(parts[1]), goFloatW(parts[2])
+		switch {
+		case ok1 && ok2:
 			spec, specW, specPanic, ok = goConvert(ts, td, "a0"), td.w, "false", true
+		case ok1 && fd > 0:
+			// integer -> float: rounded to the destination precision (nearest even); signedness from the source type
+			op := fpToFP(fd)
+			if !ts.signed {
+				op = strings.Replace(op, "to_fp", "to_fp_unsigned", 1)
+			}
+			spec, specW, specFP, specPanic, ok = "("+op+" RNE a0)", fd, true, "false", true
+		case fs > 0 && fd > 0:
+			spec, specW, specFP, specPanic, ok = "a0", fd, true, "false", true
+			if fs != fd {
+				spec = "(" + fpToFP(fd) + " RNE a0)"
+			}
+		case fs > 0 && ok2:
+			// float -> integer: the fraction is discarded; defined by the Go spec only when the
+			// truncated value is representable in the destination type
+			op := "fp.to_sbv"
+			if !td.signed {
+				op = "fp.to_ubv"
+			}
+			spec, specW, specPanic, ok = fmt.Sprintf("((_ %s %d) RTZ a0)", op, td.w), td.w, "false", true
+			specPre = fpIntInRange("a0", fs, td.w, td.signed)
 		}
 	default:
 		c.skip = "unknown case kind"
@@ -633,7 +868,7 @@ func buildC02Case(fn *irFunc, useUF bool) *c02Case {
 	if c.skip != "" {
 		return c
 	}
-	if ret.w != specW {
+	if ret.w != specW || ret.fp != specFP {
 		// well-typedness of the emitted code is part of the contract
 		c.queries = append(c.queries, c02Query{"width", c02Prelude() + "(assert true)\n(check-sat)\n"})
 		c.skip = fmt.Sprintf("result width %d differs from the Go type's width %d", ret.w, specW)
@@ -654,7 +889,7 @@ func buildC02Case(fn *irFunc, useUF bool) *c02Case {
 	c.queries = append(c.queries, c02Query{"panics-iff", pre + fmt.Sprintf("(assert (not (and (= %s %s) (not %s))))\n(check-sat)\n(get-model)\n", implPanic, specPanic, orS(otherFires...))})
 	// (b) otherwise defined, not poison, and equal to the Go result
 	ubAny := orS(ev.ub...)
-	c.queries = append(c.queries, c02Query{"value", pre + fmt.Sprintf("(assert (not (=> (not %s) (and (not %s) (not %s) (= %s %s)))))\n(check-sat)\n(get-model)\n", specPanic, ubAny, ret.poison, ret.t, spec)})
+	c.queries = append(c.queries, c02Query{"value", pre + fmt.Sprintf("(assert (not (=> (and (not %s) %s) (and (not %s) (not %s) (= %s %s)))))\n(check-sat)\n(get-model)\n", specPanic, specPre, ubAny, ret.poison, ret.t, spec)})
 	return c
 }
 
@@ -701,15 +936,18 @@ func RunC02Harness(opts *Options, harness, outName string) (string, error) {
 }
 
 func init() {
-	PropConfigs["C02"] = &PropConfig{ID: "C02", Specs: nil,
-		Extra: c02Goals,
+	PropConfigs["C02"] = &PropConfig{ID: "C02", Specs: []string{"common.smt2", "complex.smt2"},
+		Modules: []Module{rtModule},
+		Extra:   c02Goals,
 		Undecided: []string{
-			"float and complex arithmetic/rounding, float<->int conversions, Complex128Div (not covered by the integer cases enumerated here)",
+			"complex + - * == != and conversions between complex types (lowered to aggregate insert/extract of float operations; only complex division, the runtime function Complex128Div, is under contract); untyped-constant arithmetic (go/types, at compile time)",
+			"float -> integer conversions of values whose truncation is not representable in the destination type (implementation-defined in the Go spec: no obligation)",
 			"that cl/compile.go passes go/ssa's operands to BinOp/UnOp/Convert unchanged; LLVM optimisation passes and code generation",
 			"constant operands: only the listed sample of constants is checked (run-time operands are covered for all values)",
 		},
 		Assume: []string{
-			"LLVM Language Reference semantics of add/sub/mul/sdiv/udiv/srem/urem/shl/lshr/ashr/and/or/xor/icmp/select/trunc/zext/sext as transcribed in c02.go (poison for oversized shift counts, undefined behaviour for division by zero and minInt/-1)",
+			"LLVM Language Reference semantics of add/sub/mul/sdiv/udiv/srem/urem/shl/lshr/ashr/and/or/xor/icmp/select/trunc/zext/sext and fadd/fsub/fmul/fdiv/fneg/fcmp/sitofp/uitofp/fptosi/fptoui/fpext/fptrunc as transcribed in c02.go (poison for oversized shift counts and out-of-range fptosi/fptoui, undefined behaviour for division by zero and minInt/-1; IEEE-754 round-to-nearest-even for floating point, no fast-math flags)",
+			"SMT-LIB FloatingPoint theory = IEEE-754 binary32/binary64; one NaN (Go's spec does not distinguish NaNs)",
 			"runtime.AssertDivideByZero / AssertNegativeShift panic exactly when their argument is true (verified under C03)",
 			"int, uint and uintptr are 64 bits wide (W=64 only)",
 		},
@@ -717,6 +955,9 @@ func init() {
 }
 
 func c02Goals(ck *Checker, rep *Report, opts *Options) []*Goal {
+	if opts.OnlyFn != "" && !strings.Contains("ssa.Builder.BinOp ssa.Builder.UnOp ssa.Builder.Convert", opts.OnlyFn) {
+		return nil
+	}
 	text, err := RunC02Harness(opts, "c02_emit_test.go", "c02")
 	if err != nil {
 		rep.Broken = append(rep.Broken, err.Error())
@@ -759,8 +1000,8 @@ func c02Goals(ck *Checker, rep *Report, opts *Options) []*Goal {
 		}
 	}
 	rep.Extra["cases_enumerated"] = ncase
-	rep.Extra["case_space"] = "operators {+,-,*,/,%,&,|,^,&^,==,!=,<,<=,>,>=} x 11 integer types; shifts x 11x11 (operand, count) type pairs; unary -,^ x 11, !; 11x11 integer conversions; sampled constant operands"
-	if ncase < 900 {
+	rep.Extra["case_space"] = "operators {+,-,*,/,%,&,|,^,&^,==,!=,<,<=,>,>=} x 11 integer types; shifts x 11x11 (operand, count) type pairs; unary -,^ x 11, !; 11x11 integer conversions; sampled constant operands; {+,-,*,/,==,!=,<,<=,>,>=} and unary - x 2 float types; all conversions between the 11 integer and 2 float types and between the float types"
+	if ncase < 1100 {
 		rep.Broken = append(rep.Broken, fmt.Sprintf("emission harness produced only %d cases", ncase))
 	}
 	return goals
@@ -771,24 +1012,34 @@ func c02Goals(ck *Checker, rep *Report, opts *Options) []*Goal {
 // Go expression.
 func c02Replay(fn *irFunc, model string, opts *Options) (map[string]interface{}, bool) {
 	doc := map[string]interface{}{"case": fn.name, "emitted_ir": fn.text}
+	mv := modelValues(model)
 	vals := map[string]*big.Int{}
-	re := regexp.MustCompile(`define-fun (a\d) \(\) \(_ BitVec \d+\)\s+(#[xb][0-9a-fA-F]+)`)
-	for _, m := range re.FindAllStringSubmatch(model, -1) {
-		v := new(big.Int)
-		if m[2][1] == 'x' {
-			v.SetString(m[2][2:], 16)
-		} else {
-			v.SetString(m[2][2:], 2)
-		}
-		vals[m[1]] = v
-	}
 	parts := strings.Split(fn.name, "__")
 	var args []string
 	for i, p := range fn.params {
-		v := vals[fmt.Sprintf("a%d", i)]
-		if v == nil {
-			v = big.NewInt(0)
+		name := fmt.Sprintf("a%d", i)
+		v := big.NewInt(0)
+		if fw := irFPWidth(p); fw > 0 {
+			if x, ok := mv[name]; ok {
+				if b, ok := sexpBits(x, FPSort(fw)); ok {
+					v = b
+				}
+			}
+			vals[name] = v
+			// LLVM writes float and double constants as the bits of the double value
+			d := math.Float64frombits(v.Uint64())
+			if fw == 32 {
+				d = float64(math.Float32frombits(uint32(v.Uint64())))
+			}
+			args = append(args, fmt.Sprintf("%s 0x%016X", p, math.Float64bits(d)))
+			continue
 		}
+		if x, ok := mv[name]; ok {
+			if b, ok := sexpBits(x, BV(irWidth(p), false)); ok {
+				v = b
+			}
+		}
+		vals[name] = v
 		args = append(args, fmt.Sprintf("%s %s", p, v.String()))
 	}
 	doc["operands"] = args
@@ -803,10 +1054,16 @@ func c02Replay(fn *irFunc, model string, opts *Options) (map[string]interface{},
 	}
 	ll.WriteString(fn.text)
 	rw := irWidth(fn.ret)
+	rfw := irFPWidth(fn.ret)
 	fmt.Fprintf(&ll, "define i32 @main() {\n  %%r = call %s @\"%s\"(%s)\n", fn.ret, fn.name, strings.Join(args, ", "))
-	if rw < 64 {
+	switch {
+	case rfw == 32:
+		ll.WriteString("  %rb = bitcast float %r to i32\n  %z = zext i32 %rb to i64\n")
+	case rfw == 64:
+		ll.WriteString("  %z = bitcast double %r to i64\n")
+	case rw < 64:
 		fmt.Fprintf(&ll, "  %%z = zext %s %%r to i64\n", fn.ret)
-	} else {
+	default:
 		ll.WriteString("  %z = add i64 %r, 0\n")
 	}
 	ll.WriteString("  %q = call i32 (i8*, ...) @printf(i8* getelementptr inbounds ([6 x i8], [6 x i8]* @fmt, i32 0, i32 0), i64 %z)\n  ret i32 0\n}\n")
@@ -823,6 +1080,12 @@ func c02Replay(fn *irFunc, model string, opts *Options) (map[string]interface{},
 	// --- the same expression under the host Go toolchain (the reference semantics)
 	var expr string
 	goLit := func(ty string, v *big.Int) string {
+		switch ty {
+		case "float32":
+			return fmt.Sprintf("math.Float32frombits(0x%x)", v)
+		case "float64":
+			return fmt.Sprintf("math.Float64frombits(0x%x)", v)
+		}
 		t, _ := goIntTypeOf(ty)
 		x := new(big.Int).Set(v)
 		if t.signed && x.Bit(t.w-1) == 1 {
@@ -833,6 +1096,7 @@ func c02Replay(fn *irFunc, model string, opts *Options) (map[string]interface{},
 	opSym := map[string]string{"ADD": "+", "SUB": "-", "MUL": "*", "QUO": "/", "REM": "%", "AND": "&", "OR": "|", "XOR": "^", "ANDNOT": "&^", "SHL": "<<", "SHR": ">>",
 		"EQL": "==", "NEQ": "!=", "LSS": "<", "LEQ": "<=", "GTR": ">", "GEQ": ">="}
 	decl := ""
+	resTy := ""
 	switch parts[0] {
 	case "binop":
 		if parts[2] == "bool" {
@@ -840,29 +1104,39 @@ func c02Replay(fn *irFunc, model string, opts *Options) (map[string]interface{},
 		}
 		decl = fmt.Sprintf("var x %s = %s\n\tvar y %s = %s\n", parts[2], goLit(parts[2], vals["a0"]), parts[3], goLit(parts[3], vals["a1"]))
 		expr = "x " + opSym[parts[1]] + " y"
+		resTy = parts[2]
 	case "binopc":
 		cs := strings.Replace(parts[3], "m", "-", 1)
 		decl = fmt.Sprintf("var x %s = %s\n\tvar y %s = %s\n", parts[2], goLit(parts[2], vals["a0"]), parts[2], cs)
 		expr = "x " + opSym[parts[1]] + " y"
+		resTy = parts[2]
 	case "unop":
 		if parts[2] == "bool" {
 			return doc, false
 		}
 		decl = fmt.Sprintf("var x %s = %s\n", parts[2], goLit(parts[2], vals["a0"]))
 		expr = map[string]string{"SUB": "-x", "XOR": "^x"}[parts[1]]
+		resTy = parts[2]
 	case "conv":
 		decl = fmt.Sprintf("var x %s = %s\n", parts[1], goLit(parts[1], vals["a0"]))
 		expr = parts[2] + "(x)"
+		resTy = parts[2]
 	default:
 		return doc, false
 	}
 	conv := "uint64(r)"
-	if rw == 1 {
+	switch {
+	case rfw == 32:
+		conv = "uint64(math.Float32bits(float32(r)))"
+	case rfw == 64:
+		conv = "math.Float64bits(float64(r))"
+	case rw == 1:
 		conv = "b2u(r)"
-	} else if rw < 64 {
+	case rw < 64:
 		conv = fmt.Sprintf("uint64(uint%d(r))", rw)
 	}
-	prog := fmt.Sprintf("package main\n\nimport \"fmt\"\n\nfunc b2u(b bool) uint64 {\n\tif b {\n\t\treturn 1\n\t}\n\treturn 0\n}\n\nfunc main() {\n\tdefer func() {\n\t\tif recover() != nil {\n\t\t\tfmt.Println(\"PANIC\")\n\t\t}\n\t}()\n\t%s\tr := %s\n\tfmt.Println(%s)\n\t_ = b2u\n}\n", decl, expr, conv)
+	_ = resTy
+	prog := fmt.Sprintf("package main\n\nimport (\n\t\"fmt\"\n\t\"math\"\n)\n\nvar _ = math.Pi\n\nfunc b2u(b bool) uint64 {\n\tif b {\n\t\treturn 1\n\t}\n\treturn 0\n}\n\nfunc main() {\n\tdefer func() {\n\t\tif recover() != nil {\n\t\t\tfmt.Println(\"PANIC\")\n\t\t}\n\t}()\n\t%s\tr := %s\n\tfmt.Println(%s)\n\t_ = b2u\n}\n", decl, expr, conv)
 	goFile := filepath.Join(dir, "ref.go")
 	os.WriteFile(goFile, []byte(prog), 0o644)
 	doc["go_expression"] = strings.ReplaceAll(decl, "\n\t", "; ") + "r := " + expr
@@ -879,6 +1153,25 @@ func c02Replay(fn *irFunc, model string, opts *Options) (map[string]interface{},
 		doc["go_error"] = err2.Error()
 		return doc, false
 	}
-	doc["disagree"] = got != want
-	return doc, got != want
+	disagree := got != want
+	if disagree && rfw > 0 {
+		// two NaNs are the same result
+		g, e1 := strconv.ParseUint(got, 10, 64)
+		w, e2 := strconv.ParseUint(want, 10, 64)
+		if e1 == nil && e2 == nil {
+			isNaN := func(b uint64) bool {
+				if rfw == 32 {
+					f := math.Float32frombits(uint32(b))
+					return f != f
+				}
+				f := math.Float64frombits(b)
+				return f != f
+			}
+			if isNaN(g) && isNaN(w) {
+				disagree = false
+			}
+		}
+	}
+	doc["disagree"] = disagree
+	return doc, disagree
 }
